@@ -13,6 +13,14 @@ noncomputable instance : Transc ℝ := ⟨Real.sin, Real.cos, Real.sqrt, Real.pi
 theorem Vec.sum_eq (l : List ℝ) : Vec.sum l = l.sum := by
   unfold Vec.sum; rw [List.sum_eq_foldl]; simp
 
+@[simp] theorem Cmp.eq_real (a b : ℝ) : Cmp.eq a b = decide (a = b) := by
+  unfold Cmp.eq
+  by_cases h : a = b
+  · subst h; simp
+  · have : ¬ (a ≤ b ∧ b ≤ a) := fun ⟨h1, h2⟩ => h (le_antisymm h1 h2)
+    rw [← Bool.decide_and, decide_eq_false this]
+    simp [h]
+
 @[simp] theorem Cmp.ne_real (a b : ℝ) : Cmp.ne a b = decide (a ≠ b) := by
   unfold Cmp.ne
   by_cases h : a = b
